@@ -275,6 +275,18 @@ func realMain() int {
 			units = append(units, unit{con: c})
 		}
 	}
+	{
+		// unit names key obligations and frames: two contract functions of the
+		// same name in one run would shadow each other
+		seenNames := map[string]string{}
+		for _, u := range units {
+			n := u.con.Fn.Name()
+			if prev, dup := seenNames[n]; dup {
+				res.SpecErrors = append(res.SpecErrors, fmt.Sprintf("two contract functions named %s (%s and %s)", n, prev, u.con.Fn.String()))
+			}
+			seenNames[n] = u.con.Fn.String()
+		}
+	}
 	for _, s := range db.sweeps {
 		if hasProp(s.Props) && strings.Contains(s.Name, *flagUnit) {
 			units = append(units, unit{sw: s})
@@ -337,12 +349,56 @@ func realMain() int {
 			}
 		}
 	}
+	// channels somebody sends on (same granularity as "closable"): a receive from
+	// a channel nobody sends on completes only because the channel was closed
+	sendable := map[string]bool{}
+	noteSend := func(ch ssa.Value, fn *ssa.Function) {
+		ct, ok := ch.Type().Underlying().(*types.Chan)
+		if !ok {
+			return
+		}
+		if ld, isLoad := ch.(*ssa.UnOp); isLoad {
+			if fa, isFA := ld.X.(*ssa.FieldAddr); isFA {
+				pt := fa.X.Type().Underlying().(*types.Pointer).Elem()
+				sendable["field:"+fieldArrayName(pt, fa.Field)] = true
+				return
+			}
+		}
+		if localMadeChan(ch, fn, 0) {
+			return
+		}
+		if _, isMake := ch.(*ssa.MakeChan); isMake {
+			return
+		}
+		sendable[typeKey(ct.Elem())] = true
+	}
+	for _, fn := range allFns {
+		if !strings.HasPrefix(pkgPathOf(fn), frpPrefix) {
+			continue
+		}
+		for _, b := range fn.Blocks {
+			for _, ins := range b.Instrs {
+				switch c := ins.(type) {
+				case *ssa.Send:
+					noteSend(c.Chan, fn)
+				case *ssa.Select:
+					for _, sst := range c.States {
+						if sst.Dir == types.SendOnly {
+							noteSend(sst.Chan, fn)
+						}
+					}
+				}
+			}
+		}
+	}
+
 	if *flagVerbose {
 		fmt.Printf("closable chan elem types: %v\n", sortedKeys(closable))
+		fmt.Printf("sendable chans: %v\n", sortedKeys(sendable))
 	}
 	for _, u := range units {
 		ut0 := time.Now()
-		x := &Run{prog: prog, fset: prog.Fset, d: newDecls(), spec: db, arrSorts: map[string]Sort{}, arrRefEl: map[string]bool{}, arrSliceRefEl: map[string]string{}, maxPaths: *flagMaxPaths, timeout: timeout, maxDepth: 6, trusted: map[string]bool{}, modCache: map[*ssa.Function]*ModSet{}, inlined: map[string]bool{}, opaque: map[string]bool{}, closable: closable, mapZero: map[string]string{}, ctxInner: map[string]Val{}}
+		x := &Run{prog: prog, fset: prog.Fset, d: newDecls(), spec: db, arrSorts: map[string]Sort{}, arrRefEl: map[string]bool{}, arrSliceRefEl: map[string]string{}, maxPaths: *flagMaxPaths, timeout: timeout, maxDepth: 6, trusted: map[string]bool{}, modCache: map[*ssa.Function]*ModSet{}, inlined: map[string]bool{}, opaque: map[string]bool{}, closable: closable, sendable: sendable, mapZero: map[string]string{}, ctxInner: map[string]Val{}}
 		ur := &UnitResult{}
 		var finals []*State
 		if u.con != nil {
